@@ -234,12 +234,17 @@ UNPARSEABLE = 'MAP\n  NAME "bad"\n  LAYER\n    TYPE\n  END\nEND\n'
 def run_validate(res, tier, shard):
     import mappyfile
 
-    kinds = {"valid": VALID, "invalid": invalid_map(2), "unparseable": UNPARSEABLE, "missing": None}
+    kinds = {"valid": VALID, "invalid": invalid_map(2), "unparseable": UNPARSEABLE, "missing": None,
+             # files that fail to load in other ways than a syntax error
+             "recursive": 'MAP\n  INCLUDE "recursive.map"\nEND\n', "nonutf8": b'MAP\n  NAME "caf\xe9"\nEND\n',
+             "transformer_error": 'MAP\n  LAYER\n    TYPE POINT\n    FEATURE\n      POINTS\n      END\n    END\n  END\nEND\n'}
+    base_kinds = ["invalid", "missing", "unparseable", "valid"]
     cases = []
     for r_ in (1, 2, 3):
         for combo in itertools.combinations(sorted(kinds), r_):
             for ver in ("8.2", "7.6", None):
-                cases.append(("subset", combo, ver))
+                if all(k in base_kinds for k in combo) or ver == "8.2":
+                    cases.append(("subset", combo, ver))
     counts = [0, 1, 2, 3, 254, 255, 256, 257, 258] if tier == "quick" else list(range(0, 301)) + [511, 512]
     for n in counts:
         cases.append(("count", n, "8.2"))
@@ -258,7 +263,10 @@ def run_validate(res, tier, shard):
                 for name in case[1]:
                     fn = name + ".map"
                     files.append(fn)
-                    if kinds[name] is not None:
+                    if isinstance(kinds[name], bytes):
+                        with open(os.path.join(tmp, fn), "wb") as f:
+                            f.write(kinds[name])
+                    elif kinds[name] is not None:
                         with open(os.path.join(tmp, fn), "w", encoding="utf-8") as f:
                             f.write(kinds[name])
             else:
@@ -359,7 +367,7 @@ def run_unit(unit):
 def describe(tier):
     return {"rule": "case = one document round trip or one CLI subprocess; state = distinct output / (case, exit status)",
             "bounds": {"code_points": 0x110000 - 0x800 - 0x20 - 1 + 2, "format_option_combinations": len(format_combos()), "format_documents": len(format_docs()),
-                       "validate_error_counts": "0-3, 254-258" if tier == "quick" else "0..300, 511, 512", "validate_file_kinds": ["valid", "invalid", "unparseable", "missing"],
+                       "validate_error_counts": "0-3, 254-258" if tier == "quick" else "0..300, 511, 512", "validate_file_kinds": ["valid", "invalid", "unparseable", "missing", "recursive include", "not UTF-8", "transformer error"],
                        "schema_versions": [None, 4.0, 5.0, 5.4, 6.0, 7.0, 7.6, 8.0, 8.2, 8.4]}}
 
 
@@ -370,7 +378,7 @@ def replay(case):
             kind, spec, ver = case["case"]
             if kind == "subset":
                 for name in spec:
-                    text = {"valid": VALID, "invalid": invalid_map(2), "unparseable": UNPARSEABLE, "missing": None}[name]
+                    text = {"valid": VALID, "invalid": invalid_map(2), "unparseable": UNPARSEABLE, "missing": None}.get(name, UNPARSEABLE)
                     if text is not None:
                         with open(os.path.join(tmp, name + ".map"), "w", encoding="utf-8") as f:
                             f.write(text)
